@@ -324,6 +324,10 @@ def r_tag_blocks_extend_span(r, prog):
 def r_lexer_preconditions(r, prog):
     guards.evaluate(r, prog, rule_scopes.guards_comment_lexer, 'guards_comment_lexer.json', 35)
 
+
+def r_parser_entry(r, prog):
+    guards.evaluate(r, prog, rule_scopes.guards_parser_entry, 'guards_parser_entry.json', 10)
+
 def run(ctx):
     prog = ctx.prog
     ctx.run_rule('C16.1a', 'T6', 'link patcher: compute and apply loops cover the same node kinds = impls of Commentable', r_node_variants_agree, prog)
@@ -337,3 +341,4 @@ def run(ctx):
     ctx.run_rule('C16.5c', 'T4', 'tag blocks extend the comment span', r_tag_blocks_extend_span, prog)
     ctx.run_rule('C16.6', 'T5', 'return-list shapes have distinct tag checks', r_return_shapes, prog)
     ctx.run_rule('C16.8', 'T13', 'conditions under which the doc comment lexer consumes, returns and switches modes (precondition ledger)', r_lexer_preconditions, prog)
+    ctx.run_rule('C16.9', 'T13', 'conditions under which a parsed comment / file is handed back or dropped (precondition ledger of the parser entry points)', r_parser_entry, prog)
